@@ -464,6 +464,13 @@ def sessions_case(ctx, case):
             login.append(('compress', sp['compress']))
         login.append(('success',))
         end = sp['end']
+        if sp.get('status'):
+            # a status query as this session (never compressed/encrypted)
+            s_ = servers.Server({'version': 757, 'status': {
+                'reply': '{"version":{"name":"x","protocol":757},'
+                         '"description":"x"}'}})
+            srvs.append(s_)
+            return s_
         spec = {'version': 757, 'login': login, 'play': {
             'bursts': [[('keep_alive', {'keep_alive_id': 77 + i})]],
             'mode': 'reactive',
@@ -477,17 +484,25 @@ def sessions_case(ctx, case):
     world = vnet.World(default=factory)
     from minecraft.networking.connection import Connection
     excs = []
+    statuses = []
+
+    def start():
+        # begin session number len(srvs)
+        if sess[min(len(srvs), len(sess) - 1)].get('status'):
+            conn.status(handle_status=statuses.append, handle_ping=False)
+        else:
+            conn.connect()
     with vnet.installed(world):
         def on_exc(exc, info):
             excs.append(exc)
             if len(srvs) < len(sess):
                 if case.get('reconnect') != 'direct':
                     conn.disconnect(immediate=True)
-                conn.connect()
+                start()
         conn = Connection('localhost', 25565, username='u',
                           allowed_versions={757}, handle_exception=False)
         conn.register_exception_handler(on_exc)
-        conn.connect()
+        start()
         done_user = set()
         for _ in range(4 * len(sess) + 4):
             st_ = world.settle()
@@ -510,7 +525,7 @@ def sessions_case(ctx, case):
             if len(srvs) >= len(sess):
                 break
             try:
-                conn.connect()      # previous session ended cleanly
+                start()             # previous session ended cleanly
             except Exception as e:
                 ctx.fail('sessions', 'S-reconnect-raised',
                          dict(case, session=len(srvs)), exc=e)
@@ -524,11 +539,21 @@ def sessions_case(ctx, case):
                      dict(case, session=i), sv.errors[:2],
                      'well-formed client stream from a clean state')
             return
+        if sp.get('status'):
+            if sv.status_requests != 1:
+                ctx.fail('sessions', 'R1-status-session-not-understood',
+                         dict(case, session=i), sv.status_requests, 1)
+                return
+            continue
         if sv.replies != [('keep_alive', 77 + i)]:
             ctx.fail('sessions', 'R1-session-not-understood',
                      dict(case, session=i), sv.replies,
                      [('keep_alive', 77 + i)])
             return
+    if len(statuses) != sum(1 for x in sess if x.get('status')):
+        ctx.fail('sessions', 'R1-status-replies-delivered', case,
+                 len(statuses), sum(1 for x in sess if x.get('status')))
+        return
     if len(sess) >= 2 and len({(x.get('compress'), bool(x.get('encrypt')))
                                for x in sess}) >= 2:
         ctx.nt('sess', repr(case))
@@ -664,11 +689,20 @@ def t_sessions(ctx, n):
                 sessions_case(ctx, {'reconnect': rc, 'sessions': [
                     {'compress': c1, 'encrypt': x1, 'end': e1},
                     {'compress': c2, 'encrypt': x2, 'end': 'disconnect'}]})
+            # a status query after a compressed / encrypted play session
+            for c1, x1 in ((64, False), (0, True), (None, True)):
+                sessions_case(ctx, {'reconnect': rc, 'sessions': [
+                    {'compress': c1, 'encrypt': x1, 'end': e1},
+                    {'status': True, 'end': 'disconnect'},
+                    {'compress': None, 'encrypt': False,
+                     'end': 'disconnect'}]})
     ctx.exhaustive_done('two-session table: 5 endings x 2 reconnect styles '
-                        'x 4 framing-state changes')
+                        'x 4 framing-state changes (+ 3 with a status query '
+                        'in between)')
     sp = st.fixed_dictionaries({
         'compress': st.sampled_from([None, 0, 64, 256, -1]),
-        'encrypt': st.booleans(), 'end': st.sampled_from(ends)})
+        'encrypt': st.booleans(), 'end': st.sampled_from(ends),
+        'status': st.sampled_from([False, False, False, True])})
     strat = st.fixed_dictionaries({
         'sessions': st.lists(sp, min_size=2, max_size=4),
         'reconnect': st.sampled_from(['direct', 'disconnect_first'])})
